@@ -1233,6 +1233,12 @@ fn main() {
                 let mut nimpl: BTreeMap<usize, usize> = BTreeMap::new();
                 let mut dumped = 0;
                 for o in &log.obs {
+                    if let Ok(pat) = std::env::var("SIM_DUMP_MATCH") {
+                        if dumped < 4 && o.text.contains(&pat) && o.text.matches('\u{1f}').count() <= 1 {
+                            dumped += 1;
+                            println!("--- MATCH {}\n{}", o.text, texts[o.input as usize].1);
+                        }
+                    }
                     if o.verdict == "PANIC" && dumped < 3 && std::env::var("SIM_DUMP_PANICS").is_ok() {
                         dumped += 1;
                         println!("--- PANIC {}\n{}", o.text, texts[o.input as usize].1);
@@ -1245,6 +1251,11 @@ fn main() {
                             *nerr.entry(k).or_default() += 1;
                             if k == 1 {
                                 *msgs.entry(format!("ERR1: {}", &o.text[..o.text.len().min(90)])).or_default() += 1
+                            } else if std::env::var("SIM_ALL_MSGS").is_ok() {
+                                for m in o.text.split('\u{1f}').skip(1).filter(|m| !m.is_empty()) {
+                                    let m: String = m.chars().map(|c| if c.is_ascii_digit() { '#' } else { c }).collect();
+                                    *msgs.entry(format!("ERRn: {}", &m[..m.char_indices().nth(70).map(|x| x.0).unwrap_or(m.len())])).or_default() += 1
+                                }
                             }
                         },
                         _ => *nimpl.entry(o.text.matches("impl ").count()).or_default() += 1,
